@@ -664,7 +664,9 @@ impl PartialEq<Self> for XType {
                     && a.ret.eq(&b.ret)
             }
             (Self::XCallable(ref a), Self::XFunc(ref b)) => {
+                // (a callable type has no optional parameters)
                 b.generic_params.is_none()
+                    && b.params.iter().all(|p| p.required)
                     && a.param_types == b.params.iter().map(|p| p.type_.clone()).collect::<Vec<_>>()
                     && a.return_type.eq(&b.ret)
             }
